@@ -178,6 +178,20 @@ def make_env(kind: str, templates: dict[str, str], counter: list[int], root: str
                 return super().get_source(env, template_name, context=context, **kwargs)
 
         loader = SnippetsLoader(root)
+    elif kind == "fs-both-override":
+        # ... and a subclass that customises both entry points the same way, each calling super()
+        class SnippetsLoader2(FileSystemLoader):
+            def get_source(self, env, template_name, *, context=None, **kwargs):  # noqa: ANN001
+                if kwargs.get("tag") in ("include", "render"):
+                    template_name = "snippets__/" + template_name
+                return super().get_source(env, template_name, context=context, **kwargs)
+
+            async def get_source_async(self, env, template_name, *, context=None, **kwargs):  # noqa: ANN001
+                if kwargs.get("tag") in ("include", "render"):
+                    template_name = "snippets__/" + template_name
+                return await super().get_source_async(env, template_name, context=context, **kwargs)
+
+        loader = SnippetsLoader2(root)
     else:
         raise ValueError(kind)
     del liquid2
@@ -202,7 +216,7 @@ def env_variant(v: str) -> dict[str, Any]:
 
 
 DICT_KINDS = ["dict", "gated", "caching", "caching-ns", "gated-caching", "gated-uptodate", "gated-stale", "gated-stale-slow"]
-FS_KINDS = ["fs", "caching-fs", "choice", "fs-sync-override", "caching-fs-sync-override"]
+FS_KINDS = ["fs", "caching-fs", "choice", "fs-sync-override", "caching-fs-sync-override", "fs-both-override"]
 
 
 def outcome(fn) -> tuple:  # noqa: ANN001
